@@ -9,8 +9,11 @@ All statements are about the definitions the driver executes (`Model/DMS.lean`) 
 of an enum value or of the model makes them fail.  Byte strings are `List Nat`, all theorems hold for every `Nat`
 (so in particular for every byte, NUL and high-bit bytes included).
 
-Not theorems (oracle / exact per-sample check only, see `tools/props.d/C10.py`): the half-unit round-trip bound
-(`roundtrip_bound` of DESIGN §5 needs `RoundSpec round53`), the shape of `%.*f` output for arbitrary values.
+Closure of the formatter into the parser (`encode_in_grammar`, `grammar_all`, `decode_encode`), the full NUL statement
+(`decode_nul_rejected`), sums of signed pieces (`decode_sum`) and the round-trip bounds (`encode_value_bound`,
+`roundtrip_bound`, `str_val_roundtrip`) are theorems about the same executable definitions; the helper lemmas live in
+`Proofs/DMSDigits.lean`, `DMSGrammar.lean`, `DMSEncode.lean`, `DMSPlain.lean`, `DMSClosure.lean`, `DMSNul.lean`,
+`DMSStrVal.lean`, `DMSRound.lean`.  What is not proved is listed in `tools/props.d/C10.py`.
 -/
 namespace GeoVerif.Props.C10
 open GeoVerif GeoVerif.DMS GeoVerif.DMSProofs GeoVerif.Gen GeoVerif.Decimal
@@ -435,9 +438,8 @@ theorem azimuth_no_latitude (s : Bytes) (v : F64) (h : decodeAzimuth s = .ok v) 
 /-! ## malformed input: NUL bytes, and the splitting of sums -/
 
 /-- **NUL is rejected** (component loop, all strings, any position, any fuel): a component text containing a NUL byte
-    is never accepted.  `…_partial`: the full statement "`decode s` is an error whenever `0 ∈ s`" also needs that
-    `replaceAll`, `trim`, `pieces` and `strip` keep the NUL and that `nummatch` does not match it; those steps are
-    covered by the exact correspondence on the NUL-containing mutation / random streams, not by a theorem. -/
+    is never accepted.  (Kept under its first-round name; the full statement "`decode s` is an error whenever `0 ∈ s`"
+    is `decode_nul_rejected` below.) -/
 theorem nul_rejected_partial (f np : Nat) (sl : Slots) (s : Bytes) (h : 0 ∈ s) : ∃ e, comps f np sl s = .error e :=
   comps_nul f np sl s h
 
